@@ -14,6 +14,7 @@ import Liftbridge.Driver.SealDrv
 import Liftbridge.Driver.GroupSubDrv
 import Liftbridge.Driver.ActivityDrv
 import Liftbridge.Driver.FailoverDrv
+import Liftbridge.Driver.MetadataDrv
 
 namespace Liftbridge.Driver
 open Liftbridge
@@ -24,6 +25,7 @@ structure St where
   groupSub : GroupSubSt := {}
   activity : ActivitySt := {}
   failover : FailoverSt := {}
+  metadata : MetaSt := {}
 
 def showRes {α} (f : α → String) : Res α → String
   | .ok a => "ok " ++ f a
@@ -60,6 +62,7 @@ def step (st : St) (line : String) : St × String :=
   | "c19" :: rest => (st, c19 rest)
   | "c15" :: rest => (st, c15Step rest)
   | "c17" :: rest => (st, c17 rest)
+  | "c06" :: rest => let (m, out) := metaStep st.metadata rest; ({ st with metadata := m }, out)
   | "c07" :: rest => let (f, out) := failoverStep st.failover rest; ({ st with failover := f }, out)
   | "c18" :: rest => let (a, out) := activityStep st.activity rest; ({ st with activity := a }, out)
   | "c13" :: rest => let (g, out) := groupSubStep st.groupSub rest; ({ st with groupSub := g }, out)
